@@ -12,7 +12,9 @@ import (
 	"time"
 )
 
-const preludeExtra = `(declare-fun str_id (Str) Int)
+const preludeExtra = `(declare-const interior_ptr Int)
+(assert (> interior_ptr 0))
+(declare-fun str_id (Str) Int)
 (declare-fun str_sub (Str Int Int) Str)
 (declare-fun str_cat (Str Str) Str)
 (declare-fun uf_strlt (Str Str) Bool)
